@@ -30,7 +30,7 @@ BUILDS = (("san", ["worker"]),)
 
 def budget(tier):
     if tier == "thorough":
-        return {"cases": 6000, "tsan_cases": 300, "min_nontrivial": 1500}
+        return {"cases": 6000, "tsan_cases": 300, "min_nontrivial": 700}
     return {"cases": 3200, "tsan_cases": 0, "min_nontrivial": 120}
 
 
